@@ -1,13 +1,13 @@
 SPECIFICATION Spec
 CONSTANTS
-  NVarsSet <- MC_N12
-  Grid <- MC_GridQuick
-  MaxExcluded = 1
+  Schemes <- MC_SchemesQuick
   AllowMalformed = TRUE
   AsFound_SignedRelativeTest = TRUE
   AsFound_NearZeroBandIgnoresDrift = FALSE
+  AsFound_ExclusionBySubstring = FALSE
 INVARIANT TypeOK
 INVARIANT C15_AcceptedIsSteady
+INVARIANT C15_JudgesExactlyNonExcluded
 INVARIANT C15_OtherwiseRaises
 PROPERTY C15_LeavesSolverUntouched
 CHECK_DEADLOCK FALSE
